@@ -38,3 +38,35 @@ Print Assumptions C17_dm15_seed_layout.
 Theorem C17_dm16_roundtrip : forall bytes, (1 <= length bytes <= 255)%nat -> dm16_extract (dm16_frame bytes) = bytes.
 Proof. exact dm16_roundtrip. Qed.
 Print Assumptions C17_dm16_roundtrip.
+
+(* ---------------------------------------------------------------- state-machine level (theories/Dm14Srv.v) *)
+From J1939 Require Import Dm14Srv.
+From J1939P Require Import Dm14SrvProofs.
+
+(* T17.4 (read): the DM16 the server sends is ONE message to the requester carrying exactly the bytes of respond() ... *)
+Theorem C17_server_dm16_carries_data : forall s a,
+  v_sa s = Some a ->
+  exists s', send_dm16 s = (s', [SSend 215 (Z.land a 255) 7 (server_dm16 s)], None) /\ v_data s' = v_data s /\ v_sa s' = v_sa s /\
+             v_state s' = v_state s.
+Proof. exact send_dm16_carries_data. Qed.
+Print Assumptions C17_server_dm16_carries_data.
+(* ... from which the client's extraction rule recovers exactly those bytes, for every length 1..255 *)
+Theorem C17_server_dm16_extracts : forall s,
+  v_length s = 8 -> (1 <= length (v_data s) <= 255)%nat -> Dm14Model.dm16_extract (server_dm16 s) = v_data s.
+Proof. exact server_dm16_extracts. Qed.
+Print Assumptions C17_server_dm16_extracts.
+
+(* T17.5 (write): the bytes queued for the serving application are exactly those of the client's DM16 *)
+Theorem C17_write_stores_exact_bytes : forall s a d0 rest,
+  v_state s = R_WAIT_FOR_DM16 -> v_sa s = Some a -> 0 <= d0 ->
+  v_queue (fst (fst (parse_dm16 s PGN_DM16 a (d0 :: rest)))) = v_queue s ++ [Dm14Model.dm16_extract (d0 :: rest)].
+Proof. exact parse_dm16_stores. Qed.
+Print Assumptions C17_write_stores_exact_bytes.
+Theorem C17_respond_returns_first_queued : forall c s proceed data er ed during,
+  let s1 := set_state (set_status (set_edcp (set_error (set_data (set_proceed s proceed) data) er) ed) (if proceed then 0 else 5))
+                      (if proceed then R_SEND_PROCEED else R_SEND_ERROR) in
+  forall s2 o2, wait_for_data s1 = (s2, o2, None) -> v_state s2 = R_WAIT_FOR_DM16 ->
+  forall s3 o3 d q, deliver_all c s2 during = (s3, o3) -> v_queue s3 = d :: q ->
+  srv_respond c s proceed data er ed during = (set_queue s3 q, o2 ++ o3, RetData d).
+Proof. exact respond_write_returns. Qed.
+Print Assumptions C17_respond_returns_first_queued.
